@@ -893,6 +893,15 @@ fn lzw_decode_stream(driver: &Driver, seed: u64, n_short: u64, n_long: u64) -> S
         let mut rng = Rng::derive(seed, "c05.lzw.decode", case);
         let long = case >= n_short;
         let early = rng.chance(2, 3);
+        if (long && case % 3 == 0) || (!long && case % 2 == 1) {
+            // a random valid code sequence (reader-side construction): recent entries, KwKwK, full table
+            let n = if long { 3900 + rng.usize(700) } else { 1 + rng.usize(60) };
+            let after_full = if rng.chance(2, 3) { 1 + rng.usize(200) } else { 0 };
+            let (x, text) = lzw_random_codes(&mut rng, early, n, after_full, 24);
+            st.count(&format!("{} early={} random-codes", if long { "long" } else { "short" }, early as u8));
+            cases.push((early, x, text));
+            continue;
+        }
         let x = lzw_payload(&mut rng, long);
         let o = lzw_opts(&mut rng);
         let text = lzw_encode_opts(&x, early, &o, &mut rng);
@@ -1478,7 +1487,7 @@ pub fn run(driver: &Driver, seed: u64, thorough: bool, replay: Option<&Value>) -
     rep.streams.push(unfilter_random(driver, seed, 500 * k, true));
     rep.streams.push(unpredict_conforming(driver, seed, 2000 * k));
     rep.streams.push(unpredict_params(driver, seed, 1500 * k));
-    rep.streams.push(lzw_decode_stream(driver, seed, 600 * k, 40 * k));
+    rep.streams.push(lzw_decode_stream(driver, seed, 600 * k, 30 * k));
     rep.streams.push(lzw_broken_stream(driver, seed, 1000 * k));
     rep.streams.push(lzw_short_stream(driver, thorough));
     rep.streams.push(chain_conforming(driver, seed, 1500 * k));
